@@ -76,12 +76,15 @@ class Patch:
 class RunMonitor:
     MAX_VIOL_PER_KEY = 3
 
-    def __init__(self, spec, oracles=None, fault=None, gp_fault=None, filter_script=None, construct_only=False):
+    def __init__(self, spec, oracles=None, fault=None, gp_fault=None, filter_script=None, construct_only=False, gp_update_fault=None):
         self.spec = spec
         self.P = gen.Problem(spec)
         self.want = set(oracles) if oracles is not None else set(ALL)
         self.fault = fault  # C10: dict(k=..., kind=...)
         self.gp_fault = set(gp_fault or [])  # C16: invocation indices of GP.fit that raise
+        self.gp_update_fault = set(gp_update_fault or [])  # C16: indices of the posterior update inside local_gp_fitting that raise
+        self.gp_update_idx = 0
+        self.gp_updates_faulted = 0
         self.filter_script = filter_script  # C03 outcome injection
         self.construct_only = construct_only
         self.viol = []
@@ -1018,6 +1021,22 @@ class RunMonitor:
 
         patch.set(GP, "fit", fit)
 
+        o_update = GP.update
+
+        def update(g, *a, **k):
+            # only the posterior recomputation made directly by local_gp_fitting (the one with the
+            # documented 'fall back to the previous hyper-parameters' handler) is a fault point
+            if sys._getframe(1).f_code.co_name == "local_gp_fitting":
+                i = mon.gp_update_idx
+                mon.gp_update_idx += 1
+                if i in mon.gp_update_fault:
+                    mon.gp_updates_faulted += 1
+                    mon.c("C16.update_faults_delivered")
+                    raise np.linalg.LinAlgError("injected posterior update failure #%d" % i)
+            return o_update(g, *a, **k)
+
+        patch.set(GP, "update", update)
+
         o_init = bb.init_and_train_gp
 
         def init_gp(*a, **k):
@@ -1289,6 +1308,7 @@ class RunMonitor:
         rec["n_polls"] = len(self.polls)
         rec["n_searches"] = len(self.searches)
         rec["n_gp_fits"] = self.gp_fit_idx
+        rec["n_gp_local_updates"] = self.gp_update_idx
         rec["gp_fits"] = self.gp_fits[:60]
         rec["phases"] = [e.get("phase") for e in self.calls][:400]
         rec["max_consec_noeval"] = self.max_consec_noeval
